@@ -1,6 +1,7 @@
 package props
 
 import (
+	"bytes"
 	"errors"
 	"fmt"
 	"regexp"
@@ -28,8 +29,63 @@ func stringSize(s string) (int, bool) {
 	return n, err == nil
 }
 
+// c10SizeSweep: the runs reserved for it walk through EVERY payload length of a
+// block (PUBLISH payload, AUTH authentication data), so that a size-specific slip
+// in the two-pass size computation cannot hide between sampled sizes.
+const c10SweepRuns = 64
+
+func c10SizeSweep(c *sim.Ctx) *sim.Violation {
+	block := 64
+	if c.Thorough {
+		block = 1100 // 64 runs x 1100 = all lengths 0..70399
+	}
+	lo := int(c.Run) * block
+	for n := lo; n < lo+block; n++ {
+		for k := 0; k < 2; k++ {
+			var p mq.Packet
+			var typ string
+			if k == 0 {
+				pb := mq.NewPublish()
+				pb.SetTopicName("t")
+				pb.SetPayload(bytes.Repeat([]byte{'p'}, n))
+				p, typ = pb, "PUBLISH"
+			} else {
+				au := mq.NewAuth()
+				au.SetReasonCode(0x18)
+				au.SetAuthMethod("m")
+				au.SetAuthData(bytes.Repeat([]byte{'d'}, n%65536))
+				p, typ = au, "AUTH"
+			}
+			w := link.NewWriter(c)
+			var cnt int64
+			var err error
+			if pi := sim.Guard(func() { cnt, err = p.WriteTo(w) }); pi != nil {
+				return sim.V("C10/"+typ+"/panic:"+pi.Site, "WriteTo panicked for payload/auth-data length %d: %s", n, pi.Value)
+			}
+			_, _, size, serr := ref.SplitFrame(w.Buf)
+			if err != nil || serr != nil || size != len(w.Buf) || int(cnt) != len(w.Buf) {
+				return sim.V("C10/"+typ+"/size-sweep", "%s with %d payload/auth-data bytes: WriteTo n=%d err=%v, %d bytes written, frame size by its header %d (%v)", typ, n, cnt, err, len(w.Buf), size, serr)
+			}
+			var str string
+			sim.Guard(func() { str = p.String() })
+			if sz, ok := stringSize(str); !ok || sz != len(w.Buf) {
+				return sim.V("C10/"+typ+"/String-size", "%s with %d payload/auth-data bytes: String() = %q, frame is %d bytes", typ, n, str, len(w.Buf))
+			}
+		}
+	}
+	c.CountN("sweep.every-payload-length.lengths", int64(block))
+	c.DistinctStr(fmt.Sprintf("sweep/%d", lo))
+	if c.WantSample() {
+		c.Sample(fmt.Sprintf("size sweep: PUBLISH payload and AUTH data of every length %d..%d: n == bytes == header size == String() size", lo, lo+block-1))
+	}
+	return nil
+}
+
 func runC10(c *sim.Ctx) *sim.Violation {
 	t := c.T
+	if c.Run < c10SweepRuns {
+		return c10SizeSweep(c)
+	}
 	// Undefined: cannot be serialised
 	if t.Bool(1, 40) {
 		u := &mq.Undefined{}
